@@ -67,7 +67,7 @@ def gen_params(rng, tier):
 def build(p):
     S = lambda k: [(r[0], r[1]) for r in p[k]]  # noqa: E731
     # a CentrallyBin with a repeated centre is only used empty: which of two equal centres a fill picks is not modelled
-    sb = [] if "dupcenter" in p["desc"] else S("sb")
+    sb = [] if ("dupcenter" in p["desc"] or "tiny" in p["desc"]) else S("sb")   # (nor one whose edges moved by one float)
     ops = [("new", "a", p["spec"]), ("fills", "a", S("sa")), ("new", "b", p["spec2"]), ("fills", "b", sb),
            ("snap", "a0", "a"), ("snap", "b0", "b")]
     expect = []
